@@ -14,6 +14,7 @@ import (
 	"github.com/database64128/shadowsocks-go/conn"
 	"github.com/database64128/shadowsocks-go/netio"
 	"github.com/database64128/shadowsocks-go/socks5"
+	"github.com/database64128/shadowsocks-go/verifhook"
 	"go.uber.org/zap"
 )
 
@@ -378,6 +379,8 @@ func (s *StreamServer) HandleStream(rawRW netio.Conn, logger *zap.Logger) (req n
 	if err != nil {
 		return
 	}
+
+	verifhook.At("ss2022.HandleStream.beforeSaltAdd")
 
 	// Add request salt to pool.
 	if !s.saltPool.Add(now, extendedSalt) {
